@@ -61,6 +61,35 @@ impl Big {
         }
         acc
     }
+    fn from_u128(x: u128) -> Big {
+        Big((0..4).map(|i| ((x >> (32 * i)) & 0xffff_ffff) as u64).collect()).trim()
+    }
+    fn add_u128(&self, y: u128) -> Big {
+        self.add(&Big::from_u128(y))
+    }
+    /// `self >> k`
+    fn shr(&self, k: usize) -> Big {
+        let limbs = k / 32;
+        let bits = (k % 32) as u32;
+        let mut out = Vec::new();
+        for i in limbs..self.0.len() {
+            let lo = self.0[i] >> bits;
+            let hi = if bits > 0 { (self.0.get(i + 1).copied().unwrap_or(0) << (32 - bits)) & 0xffff_ffff } else { 0 };
+            out.push(lo | hi);
+        }
+        if out.is_empty() {
+            out.push(0);
+        }
+        Big(out).trim()
+    }
+    /// `self mod 2^k` for `k <= 128`
+    fn low_bits(&self, k: usize) -> u128 {
+        let mut x = 0u128;
+        for (i, &l) in self.0.iter().enumerate().take(4) {
+            x |= (l as u128) << (32 * i);
+        }
+        if k >= 128 { x } else { x & ((1u128 << k) - 1) }
+    }
     fn le(&self, o: &Big) -> bool {
         let a = self.clone().trim();
         let b = o.clone().trim();
@@ -100,6 +129,45 @@ impl SizeBound {
         let lhs = self.prod_p.shl(num_bits + self.sum_k);
         let rhs = self.prod_k1.shl((s + 2 * w) as usize + self.sum_p);
         lhs.le(&rhs)
+    }
+}
+
+/// Independent arbitrary-precision reference coder (C06): interval `[lo, lo + r)` at scale
+/// `2^(W·m + S)`, no registers, no carries, no situations.
+struct RefCoder {
+    lo: Big,
+    r: u128,
+    m: usize,
+    n: usize,
+}
+
+impl RefCoder {
+    fn new(s: u32) -> Self {
+        RefCoder { lo: Big(vec![0]), r: mask(s), m: 0, n: 0 }
+    }
+    fn step(&mut self, w: u32, s: u32, p: u32, cum: u128, prob: u128) {
+        let scale = self.r >> p;
+        self.lo = self.lo.add_u128(scale * cum);
+        self.r = scale * prob;
+        if self.r < (1u128 << (s - w)) {
+            self.lo = self.lo.shl(w as usize);
+            self.r <<= w;
+            self.m += 1;
+        }
+        self.n += 1;
+    }
+    fn words(&self, w: u32, s: u32) -> Vec<u128> {
+        if self.n == 0 {
+            return vec![];
+        }
+        let sw = (s - w) as usize;
+        let y = self.lo.add_u128((1u128 << sw) - 1).shr(sw);
+        let mut out: Vec<u128> = (0..=self.m).rev().map(|i| y.shr(i * w as usize).low_bits(w as usize)).collect();
+        let upper_word = self.lo.add_u128(self.r).shr(sw).low_bits(w as usize);
+        if upper_word == y.low_bits(w as usize) {
+            out.push(0);
+        }
+        out
     }
 }
 
@@ -167,6 +235,7 @@ fn oracle_combo<C: RangeCombo>(rng: &mut Rng, w: u32, s: u32, bps: &[(u32, Vec<u
         let mut msg: Vec<(u32, u32, Vec<u128>, usize)> = Vec::new();
         let mut snaps: Vec<(usize, RangeCoderState<C::W, C::S>, bool)> = Vec::new();
         let mut bound = SizeBound::new();
+        let mut reference = RefCoder::new(s);
         let mut desc = head.clone();
         let mut broken = false;
         let mut inverted_steps = 0usize;
@@ -184,6 +253,14 @@ fn oracle_combo<C: RangeCombo>(rng: &mut Rng, w: u32, s: u32, bps: &[(u32, Vec<u
             let (nw, nb, em) = (coder.num_words(), coder.num_bits(), coder.is_empty());
             if nw != expected.len() || nb != expected.len() * w as usize || em != expected.is_empty() {
                 rep.fail("C18", format!("{} | nw | nb | empty | export => num_words {:x} num_bits {:x} is_empty {} but exporting returns {:x} words", desc, nw, nb, em, expected.len()));
+                broken = true;
+                break;
+            }
+            // C06: what exporting now returns is what the big-number reference prescribes
+            rep.eval("C06");
+            let ref_words = reference.words(w, s);
+            if expected[prefix.len()..] != ref_words[..] {
+                rep.fail("C06", format!("{} | export => {} but the arbitrary-precision reference coder gives {}", desc, show_list(expected[prefix.len()..].to_vec()), show_list(ref_words)));
                 broken = true;
                 break;
             }
@@ -268,6 +345,7 @@ fn oracle_combo<C: RangeCombo>(rng: &mut Rng, w: u32, s: u32, bps: &[(u32, Vec<u
                 break;
             }
             bound.push(w, s, p, cdf[sym + 1] - cdf[sym]);
+            reference.step(w, s, p, cdf[sym], cdf[sym + 1] - cdf[sym]);
             msg.push((b, p, cdf, sym));
         }
         if broken {
